@@ -290,6 +290,37 @@ ev_pipe_lost(int p)
 	kpipe_up[p] = 0;
 	monitor();
 }
+#ifdef XCTX
+/* nng_ctx_close: the context goes away while the socket and its connections stay (core: nni_ctx_close -> ctx_fini) */
+static void
+ev_ctx_close(void)
+{
+	KNEED(!sock_closed);
+	if (kstop)
+		return;
+	int pend[MAXU];
+	for (int i = 0; i < MAXU; i++)
+		pend[i] = uaio_used[i] && !KDONE(i);
+	rep0_ctx_fini(&xctx);
+	kquiesce();
+	for (int i = 0; i < MAXU; i++)
+		if (uaio_used[i]) {
+			CHECK(KDONE(i), "C10: nng_ctx_close completes every operation pending on the context (send and receive alike)");
+			if (pend[i]) {
+				CHECK(KRESULT(i) == NNG_ECLOSED, "C10: an operation cut short by nng_ctx_close reports NNG_ECLOSED");
+				WITNESS("pending operation closed with its context");
+			}
+		}
+	CHECK(!nni_list_active(&sock.recvq, &xctx), "C10: a closed context is not left on the socket's list of waiting receivers");
+	for (int p = 0; p < MAXP; p++)
+		if (kpipe_up[p])
+			CHECK(!nni_list_active(&pd[p].sendq, &xctx), "C10: a closed context is not left on a connection's list of waiting senders");
+	sweep();
+	kstop = 1; /* the handle is gone: nothing more can be issued on it */
+	WITNESS("context closed");
+}
+#define X if (!kstop) ev_ctx_close();
+#endif
 static void
 ev_close(void)
 {
